@@ -120,14 +120,28 @@ def scenario(rm, rng, nodes, ops, rf, diverse, replicas, hash_type, table=None, 
               hflags=sorted(flags), hash_type=hash_type, nodes=[list(map(str, n)) for n in nodes])
 
 
+def routed(router, ring, nidx, p, flags):
+  """(ring.get_nodes(p), router.getDestinations(p)) as node indexes; an exception or a node that was never
+  configured is a flag, not a harness failure"""
+  out = []
+  for fn, key in ((lambda: list(ring.get_nodes(p)), None), (lambda: [(x[0], x[2]) for x in router.getDestinations(p)], None)):
+    try:
+      out.append([nidx.get(n, 0) for n in fn()])
+      if 0 in out[-1]:
+        flags.add('notlive')
+    except Exception:
+      flags.add('raised')
+      out.append([])
+  return out[0], out[1]
+
+
 def observe(router, ring, nidx, maxp, flags, sweep_all):
   entries = [[p, nidx[n]] for p, n in ring.ring]
   routes = []
   prev = None
   positions = range(0, maxp + 1) if sweep_all else sorted(set([0, maxp] + [e[0] for e in entries] + [e[0] + 1 for e in entries]))
   for p in positions:
-    g = [nidx[n] for n in ring.get_nodes(p)]
-    d = [nidx[(x[0], x[2])] for x in router.getDestinations(p)]
+    g, d = routed(router, ring, nidx, p, flags)
     cur = (g, d)
     if cur != prev:
       routes.append([p, g, d])
@@ -139,7 +153,7 @@ def observe(router, ring, nidx, maxp, flags, sweep_all):
       flags.add('arcconst')
   # determinism: same key, same answer
   for r in routes[:20]:
-    if [nidx[n] for n in ring.get_nodes(r[0])] != r[1]:
+    if routed(router, ring, nidx, r[0], set())[0] != r[1]:
       flags.add('nondeterministic')
   return dict(ring=entries, routes=routes, idx=0)
 
@@ -155,6 +169,9 @@ def fast_scenario(rm, rng, nodes, ops, rf, diverse):
   servers = sorted(set(n[0] for n in nodes))
   server_of = [servers.index(n[0]) + 1 for n in nodes]
   hv = rng.sample(range(1000), len(nodes))
+  if len(nodes) >= 2 and rng.random() < 0.4:      # two destinations with the same hash value (16-bit hashes do collide)
+    a, b = rng.sample(range(len(nodes)), 2)
+    hv[b] = hv[a]
   table = {str((n[0], n[2])): hv[i] for i, n in enumerate(nodes)}
   ring._hash = lambda key: key if isinstance(key, int) else table[key]
   steps, sorted_lists = [], []
@@ -168,16 +185,22 @@ def fast_scenario(rm, rng, nodes, ops, rf, diverse):
     else:
       router.removeDestination(d)
       live.discard(idx)
-    sorted_lists.append([i for i in sorted(live, key=lambda j: hv[j - 1])])
+    mine = [i for i in sorted(live, key=lambda j: hv[j - 1])]
+    try:      # equal hashes: any order among them is a valid sort - take the code's, if it is a sort of the live nodes at all
+      theirs = [nidx.get(n, 0) for h, n in ring.sorted_nodes]
+    except Exception:
+      theirs = None
+    if theirs is not None and sorted(theirs) == sorted(live) and [hv[j - 1] for j in theirs] == [hv[j - 1] for j in mine]:
+      mine = theirs
+    sorted_lists.append(mine)
     routes = []
     for hk in range(0, 3 * max(1, len(live)) + 2):
-      g = [nidx[n] for n in ring.get_nodes(hk)]
-      dd = [nidx[(x[0], x[2])] for x in router.getDestinations(hk)]
+      g, dd = routed(router, ring, nidx, hk, flags)
       routes.append([hk, g, dd])
     steps.append(dict(ring=[], routes=routes, idx=len(sorted_lists)))
   return dict(kind='fast', server=server_of, rf=rf, diverse=bool(diverse), refpos=[[v] for v in hv],
               ops=[[o, i] for o, i in ops], canon=sorted(live), steps=steps, fresh=dict(ring=[]),
-              sorted=sorted_lists, hflags=[], hash_type='fast', nodes=[list(map(str, n)) for n in nodes])
+              sorted=sorted_lists, hflags=sorted(flags), hash_type='fast', nodes=[list(map(str, n)) for n in nodes])
 
 
 def gen_ops(rng, nn, maxops):
